@@ -4,6 +4,7 @@
 -/
 import Rl.Editor
 import Rl.Spec.OracleComplete
+import Rl.Lemmas.EditorLoops
 open Rl Rl.Spec
 
 /-- Circular order: Tab advances through candidates 0 … n-1, then the original text (index n),
@@ -62,8 +63,38 @@ theorem C14_spec_span_only (st : CompSt) (c : Text) :
     (spliceCand st c).2 = blen (takeB st.backup.1 st.start) + blen c := by
   simp [spliceCand]
 
-/-- Full statement (work in progress): Esc / C-g in the circular loop restores text, cursor and undo log. -/
+/-- Statement as first written: Esc / C-g in the circular loop restores text and cursor.  As written
+    it also quantifies over fixed-capacity line buffers whose text is already longer than their
+    capacity (never the editor's: `initEd` makes both buffers growable); there `LineBuffer::update`
+    cuts the restored text (see `C14_update_truncates_fixed_buffer`), so the statement needs the
+    hypothesis "growable" — `C14_abort_restores` below. -/
 def C14_abort_restores_statement : Prop :=
   ∀ (S : Segmenter) (U : UData) (cfg : EdCfg) (s s' : Ed) (fuel : Nat),
     completeLine S U cfg fuel s = .ok (none, s') → cfg.listCompletion = false →
     s'.line.buf = s.line.buf ∧ s'.line.pos = s.line.pos
+
+/-- **Abort restores**: whenever circular completion ends without handing a command back (no
+    candidates, or Esc / C-g after any number of Tab / Shift-Tab presses and whatever keys were
+    decoded in between), the text and the cursor are exactly those from before the completion
+    (and the buffer is still growable). -/
+theorem C14_abort_restores (S : Segmenter) (U : UData) (cfg : EdCfg) (s s' : Ed) (fuel : Nat)
+    (hrun : completeLine S U cfg fuel s = .ok (none, s')) (hcirc : cfg.listCompletion = false)
+    (hg : s.line.canGrow = true) (hp : s.line.pos ≤ blen s.line.buf) :
+    s'.line.buf = s.line.buf ∧ s'.line.pos = s.line.pos ∧ s'.line.canGrow = true := by
+  have hw : wp (completeLine S U cfg fuel)
+      (fun r s' => r = none → s'.line.buf = s.line.buf ∧ s'.line.pos = s.line.pos ∧ s'.line.canGrow = true)
+      (fun _ _ => True) s := by
+    unfold completeLine
+    simp only [wp_bind, wp_getLine]
+    split
+    · simp only [wp_pure]; intro _; exact ⟨trivial, trivial, hg⟩
+    · simp only [hcirc, Bool.not_false, if_true, wp_bind, wp_changesBegin]
+      exact completeCircular_abort S U cfg _ _ _ _ _ hp fuel 0 _ hg
+  exact wp_ok hw hrun rfl
+
+/-- the reason for the hypothesis: on a fixed-capacity buffer `update` cuts the text to the capacity -/
+theorem C14_update_truncates_fixed_buffer (S : Segmenter) (U : UData) :
+    LB.update S U ['a', 'b'] 2 { buf := [], pos := 0, cap := 1, canGrow := false } =
+      .ok ((), { buf := ['a'], pos := 1, cap := 1, canGrow := false },
+           [.del 0 [] .forward, .insStr 0 ['a']]) := by
+  rfl
